@@ -48,6 +48,10 @@ func Reset() {
 	params = nil
 	evLoaded = false
 	baseGorSet = false
+	if prevProcs != 0 {
+		runtime.GOMAXPROCS(prevProcs)
+		prevProcs = 0
+	}
 }
 
 func load() {
@@ -584,6 +588,17 @@ func Quiesce() int {
 	}
 	return n
 }
+
+// SingleP makes the native run use one processor, so that per-processor caches
+// of the runtime (sync.Pool) behave as on a single-core machine, where items
+// put back are handed out again at once; undone by the next Reset.
+func SingleP() {
+	if prevProcs == 0 {
+		prevProcs = runtime.GOMAXPROCS(1)
+	}
+}
+
+var prevProcs int
 
 // Races lists the unordered conflicting accesses seen so far (executor only).
 func Races() string { return "" }
